@@ -132,18 +132,32 @@ fn normalize_basic_value_for_boundaries(
             let upper_value = &upper.value;
             let adjust_x_lower = gen_adjust_x_for_lower_boundary(inner_type, &lower);
             let adjust_x_upper = gen_adjust_x_for_upper_boundary(inner_type, &upper);
+            // With `finite` an infinite boundary (e.g. `less = f64::INFINITY`) admits every finite
+            // value on that side: scale to the finite range, otherwise the combination below is NaN.
+            let keep_range_finite = if is_finite {
+                quote! {
+                    let range_lower = if range_lower == #inner_type::NEG_INFINITY { #inner_type::MIN } else { range_lower };
+                    let range_upper = if range_upper == #inner_type::INFINITY { #inner_type::MAX } else { range_upper };
+                }
+            } else {
+                quote! {}
+            };
             quote! {
                 let from0to1 = #arbitrary_in_01_range;
 
+                let range_lower: #inner_type = #lower_value;
+                let range_upper: #inner_type = #upper_value;
+                #keep_range_finite
+
                 // Scale range [0; 1] to the range of the boundaries.
                 // A convex combination is used, because `upper - lower` may overflow.
-                let x = (#lower_value) * (1.0 - from0to1) + (#upper_value) * from0to1;
+                let x = range_lower * (1.0 - from0to1) + range_upper * from0to1;
 
                 // Rounding may leave the range by a tiny bit, so clamp it back
-                let x = if x < (#lower_value) {
-                    #lower_value
-                } else if x > (#upper_value) {
-                    #upper_value
+                let x = if x < range_lower {
+                    range_lower
+                } else if x > range_upper {
+                    range_upper
                 } else {
                     x
                 };
